@@ -443,6 +443,28 @@ let e2e_check line =
      | Ok out -> verdict (forest_sb_dec attr rev orig out) "listed-siblings-not-in-the-specified-order"
      | Panic _ -> verdict false "entry-lost-duplicated-or-moved-to-another-parent")
 
+(* ---- e2erun: which declared argument each row received under --test; model input
+   "attr rev bench names", implementation line "ok <positions> | f64:... | names:<labels>":
+   checked exactly like the sort mode (a value received twice or never is not a permutation) ---- *)
+let e2erun line =
+  match toks line with
+  | [attr; rev; _; names] -> sort (attr ^ " " ^ rev ^ " " ^ names)
+  | _ -> failwith "e2erun"
+
+let e2erun_check line =
+  let (c, i) = split_sb line in
+  match toks c, String.index_opt i 'n' with
+  | attr :: rev :: _, _ ->
+    let marker = " | names:" in
+    let n = String.length marker and h = String.length i in
+    let rec go k = if k + n > h then None else if String.sub i k n = marker then Some k else go (k + 1) in
+    (match go 0 with
+     | Some k ->
+       let names = String.sub i (k + n) (h - k - n) in
+       sort_check_gen false (attr ^ " " ^ rev ^ " " ^ names ^ "\t" ^ String.sub i 0 k)
+     | None -> verdict false ("outcome:" ^ i))
+  | _ -> failwith "e2erun.sb"
+
 let dispatch mode line =
   match mode with
   | "nat" -> nat line
@@ -457,6 +479,8 @@ let dispatch mode line =
   | "tree.sb" -> tree_check line
   | "e2e" -> e2e line
   | "e2e.sb" -> e2e_check line
+  | "e2erun" -> e2erun line
+  | "e2erun.sb" -> e2erun_check line
   | "class" -> cls line
   | "tok" -> tok line
   | _ -> failwith ("unknown mode " ^ mode)
